@@ -908,6 +908,17 @@ func (e *CEnv) call(ex *CExpr) Value {
 	case "inst":
 		need(1)
 		return e.x.instOf(ev(0))
+	case "utf8enc":
+		// utf8enc(r): the octets bytes.Buffer.WriteRune / string(rune) produce for r
+		need(1)
+		return App("utf8enc", SBytes, intArg(0))
+	case "runeat":
+		// runeat(s, i) / runelen(s, i): the rune that `for range s` yields at byte index i and its width in octets
+		need(2)
+		return App("runeAt", SInt, bytesArg(0), intArg(1))
+	case "runelen":
+		need(2)
+		return App("runeLen", SInt, bytesArg(0), intArg(1))
 	case "utf16units":
 		// utf16units(s): the UTF-16 code units of the runes of string s, as an array; utf16len(s) their number
 		need(1)
@@ -1206,4 +1217,18 @@ func objFresh(o *Obj) *Term {
 		return And(o.FreshT, BoolLit(!o.Pool))
 	}
 	return BoolLit(o.Fresh && !o.Pool)
+}
+
+func (e *CEnv) evalInt(ex *CExpr) (*Term, error) {
+	t, err := e.evalTerm(ex)
+	if err != nil {
+		return nil, err
+	}
+	if t.S.IsBV() {
+		return BV2Int(t), nil
+	}
+	if t.S != SInt {
+		return nil, fmt.Errorf("contract expression %q is not an integer", ex.String())
+	}
+	return t, nil
 }
